@@ -817,7 +817,7 @@ theorem pyLeaves_sound (env : Env) (today : Int) : LeafSound env (pyLeaves env t
   | decimal => exact umDecimal_sound h
   | fraction => exact umFraction_sound h
   | uuid => exact umUuid_sound h
-  | path => exact umPath_sound h
+  | path => exact umPath_sound (L := { sl := pySl, um := fun _ _ => .error .unsupported, mar := pyMar env }) h
   | pattern => exact umPattern_sound h
   | date => exact umDate_sound (today := today) h
   | datetime => exact umDatetime_sound (today := today) h
